@@ -836,7 +836,11 @@ func checkDelivery(prop string, m *Model, v *Verdict) {
 				// resolved alerts of a failed flush are still there in the next attempt
 				if fi+1 < len(fl) {
 					nx := fl[fi+1].Attempts[0]
-					if nx.T-first.T <= giMax+flushTimeout(giMax)+c01Slack && !m.Disturbed(first.T-time.Second, nx.T) && nx.Truncated == 0 && first.Truncated == 0 {
+					// "next attempt" = the flush of the very next tick (ticks are max(group_interval,
+					// duration of the failed flush) apart): a later one may follow a flush at which
+					// the log said "nothing new", which succeeds silently and lets the resolved
+					// alerts go
+					if nx.T-first.T <= flushTimeout(giMax)+c01Slack && !m.Disturbed(first.T-time.Second, nx.T) && nx.Truncated == 0 && first.Truncated == 0 {
 						for lk := range first.Resolved() {
 							if _, known := m.Labels[lk]; !known {
 								continue
